@@ -177,10 +177,10 @@ theorem setSer_untouched {S : ClassId → Bool} {w : World} {c : ClassId} (s : S
   | none => exact untouched_refl S w
   | some et => exact setEntry_untouched hl rfl hS
 
-theorem verify_untouched {S : ClassId → Bool} (rec : World → ClassId → World)
+theorem verify_untouched {S : ClassId → Bool} (cfg : Config) (rec : World → ClassId → World)
     (hrec : ∀ w b, SClosed S w → S b = true → Untouched S w (rec w b)) :
     ∀ (fs : List FieldSpec) (w : World), SClosed S w → (∀ b ∈ fieldRefs fs, S b = true) →
-      Untouched S w (verifyFields rec w fs).1
+      Untouched S w (verifyFields cfg rec w fs).1
   | [], w, _, _ => untouched_refl S w
   | f :: fs, w, hcl, hb => by
     have hb' : ∀ b ∈ fieldRefs fs, S b = true := by
@@ -195,29 +195,29 @@ theorem verify_untouched {S : ClassId → Bool} (rec : World → ClassId → Wor
       simp only
       have hSb : S b = true := hb b (by simp [fieldRefs, hk, kindRefs])
       split
-      · cases hn : needsSer w b with
+      · cases hn : needsSer cfg w b with
         | true =>
           simp only [if_true]
           have u1 := hrec w b hcl hSb
-          exact untouched_trans u1 (verify_untouched rec hrec fs _ (sclosed_of_untouched hcl u1) hb')
+          exact untouched_trans u1 (verify_untouched cfg rec hrec fs _ (sclosed_of_untouched hcl u1) hb')
         | false =>
           simp only [Bool.false_eq_true, if_false]
-          exact verify_untouched rec hrec fs w hcl hb'
+          exact verify_untouched cfg rec hrec fs w hcl hb'
       · exact untouched_refl S w
     | prim t =>
       simp only
       split
-      · exact verify_untouched rec hrec fs w hcl hb'
+      · exact verify_untouched cfg rec hrec fs w hcl hb'
       · exact untouched_refl S w
     | wrap n t =>
       simp only
       split
-      · exact verify_untouched rec hrec fs w hcl hb'
+      · exact verify_untouched cfg rec hrec fs w hcl hb'
       · exact untouched_refl S w
     | refs cs =>
       simp only
       split
-      · exact verify_untouched rec hrec fs w hcl hb'
+      · exact verify_untouched cfg rec hrec fs w hcl hb'
       · exact untouched_refl S w
 
 theorem createW_untouched {cfg : Config} (hc : cfg.cachesById = true) {S : ClassId → Bool} :
@@ -231,7 +231,7 @@ theorem createW_untouched {cfg : Config} (hc : cfg.cachesById = true) {S : Class
     | some e =>
       simp only
       have u1 := fillMapper_untouched hc hl hcl hS false
-      have u2 := verify_untouched (S := S) (fun w b => (createW cfg n w b .plain).1)
+      have u2 := verify_untouched (S := S) cfg (fun w b => (createW cfg n w b .plain).1)
         (fun w b hcl hb => createW_untouched hc n w b .plain hcl hb) e.core.fields _
         (sclosed_of_untouched hcl u1) (fun b hb => hcl c e hS hl b hb)
       split
